@@ -160,6 +160,15 @@ Theorem C16_every_callee_classified :
 Proof. exact every_callee_classified. Qed.
 Print Assumptions C16_every_callee_classified.
 
+(* the helpers on the steady-state path: echoNotify and the fast path of findOrCreateHostWithLock call nothing that
+   can allocate (so a pending ping, whoever answers it, costs nothing - measured per call by kind ppa) *)
+Theorem C16_steady_helpers_alloc_free :
+  helper_alloc_free "fn:echoNotify" = true /\ helper_alloc_free "fn:findOrCreateHostWithLock.fast" = true /\
+  helper_alloc_free "fn:findOrCreateHostWithLock" = false /\ helper_alloc_free "fn:onlineTransition" = false /\
+  calls_of "fn:hostOnline" parse_calls = Some [".Lock"; ".Unlock"; ".onlineTransition"]%string.
+Proof. exact steady_helpers_alloc_free. Qed.
+Print Assumptions C16_steady_helpers_alloc_free.
+
 Theorem C16_host_calls_only_ip_arp :
   branches_with HostPath = ["et:2048"; "et:2054"; "et:34525"]%string /\
   branches_with LogPath = ["et:2048"; "et:2054"; "et:34525"]%string.
